@@ -226,6 +226,7 @@ def apply(c):
         ensures r is Ok ==> wrote(old(out), final(out), hdr_enc(&self.header, self.questions@.len() as u16, self.answers@.len() as u16,
             self.name_servers@.len() as u16, (self.additional_records@.len() + if self.header.opt is Some { 1int } else { 0int }) as u16)), // @C04:header-counts,C09:arcount-includes-opt
 """)
+    c.mark(rel, P_IMPL, 'write_to', '#[verifier::rlimit(50)]')
     c.contract(rel, P_IMPL, 'write_to', """
         requires self.pkt_ok(),
         ensures r is Ok ==> wrote(old(out), final(out), self.pkt_enc()), // @C04:exactly-the-entries,C02:packet-encoding,C09:one-opt-record
